@@ -2167,6 +2167,14 @@ def _vec_signature(body, op):
             for b_ in base:
                 sigs.add(("field", tuple(b_.path) if b_.path else (b_.kind, str(b_.name)), tuple(idx)))
     if not sigs and op["k"] in ("copy", "move"):
+        # `self.input_files[i]` as a place projection: field path + constant index local
+        for o in origins(body, op):
+            if "input_files" in o.path:
+                idx = []
+                for il in _index_locals(body, op):
+                    idx += [x.name for x in origins(body, {"k": "copy", "pl": {"l": il, "p": []}}) if x.kind == "const"]
+                sigs.add(("field", ("input_files",), tuple(idx)))
+    if not sigs and op["k"] in ("copy", "move"):
         for l in roots(body, op):
             if body.local_name(l) is not None and "Vec<" in body.local_ty(l):
                 sigs.add(("local", l))
@@ -2566,3 +2574,121 @@ def own8_file_numbers(P, R, L, rule="OWN-8"):
             le += c.edges_where("le", origin_pred_field("curr_file_number"), lambda os_: any(o.kind == "param" and o.name == 2 for o in os_))
         ok = bool(st) and bool(le) and all(mk.must_pass(s[0], through_edges=le) for s in st)
         R.check(rule, mk.path + "|only-raises", ok, where(mk), "mark_file_number_used only ever raises the counter", "le-edges %s" % le)
+
+
+# ------------------------------------------------------------------------------------------- GRD-13 / OWN-9 / PAIR-9 levels
+def grd13_find_file_compares_internal_keys(P, R, L, rule="GRD-13"):
+    """find_file_with_upper_bound_range is the level>=1 file search of point reads and overlap tests. It must order by the
+    full internal key (user key, then sequence descending): two versions of one user key can sit in neighbouring files
+    of a level, and a search by user key alone picks the wrong one for a snapshot read."""
+    fn = "versioning::utils::find_file_with_upper_bound_range"
+    b = P.body(fn)
+    if b is None:
+        return R.missing_anchor(rule, fn)
+    R.analysed(b)
+    cmps = [c for c in comparisons(b) if role.colour(b, c.lhs) == "LARGE" or role.colour(b, c.rhs) == "LARGE"]
+    ok = bool(cmps)
+    det = []
+    for c in cmps:
+        T = role.COLOUR_TRANSPARENT - {GET_USER_KEY}
+        for side in (c.lhs, c.rhs):
+            if any(o.kind == "call" and o.name == GET_USER_KEY for o in origins(b, side, transparent=T)):
+                ok = False
+                det.append("line %s compares user keys only" % c.line)
+        # the target side is the parameter (an InternalKey), the bound side is largest_key()
+        tys = {b.local_ty(side["pl"]["l"]) for side in (c.lhs, c.rhs) if side["k"] in ("copy", "move")}
+        if not any("InternalKey" in t for t in tys):
+            ok = False
+            det.append("line %s does not compare InternalKey values (%s)" % (c.line, sorted(tys)))
+        lt = c.edges_where("lt", lambda os_: role.colour_of_origins(os_) == "LARGE", lambda os_: any(o.kind == "param" and o.name == 2 for o in os_), exact=True)
+        if not lt:
+            ok = False
+            det.append("line %s: not the relation `file.largest < target` / its complement" % c.line)
+    R.check(rule, fn + "|orders-by-internal-key", ok, where(b),
+            "the file search compares file.largest_key() with the target as internal keys (`largest < target` moves right, else left)", "; ".join(det))
+
+
+def own9_create_mode(P, R, L, rule="OWN-9"):
+    """Files are created truncating: FileSystem::create_file(.., append) is called with `false` everywhere except in
+    LogWriter::new, where the flag is the caller's is_appending. A table file / temp file opened for append would inherit
+    the bytes of a crashed predecessor with the same (re-issued) file number."""
+    sites = [c for c in P.callers_of(lambda c: (c.declared_name or "") == "fs::traits::FileSystem::create_file") if not c.body.is_cleanup(c.bb)]
+    R.floor(rule, "FileSystem::create_file call sites", len([s for s in sites if not s.body.file.startswith("src/fs/")]), 3)
+    for c in sites:
+        if c.body.file.startswith("src/fs/"):
+            continue
+        R.analysed(c.body)
+        a = c.args[2]
+        if a["k"] == "const":
+            ok = a.get("val") == "0"
+            how = "append=%s" % a.get("val")
+        else:
+            os_ = origins(c.body, a)
+            ok = c.body.path.startswith("logs::LogWriter::new") and any(o.kind == "param" for o in os_)
+            how = "append flag from %s" % sorted({repr(o) for o in os_})[:2]
+        R.check(rule, "%s|create-mode" % c.body.path, ok, c.where(), "create_file truncates (append = false) outside LogWriter::new", how)
+
+
+def _index_locals(body, op, depth=8, seen=None):
+    """locals used as index in `x[i]` place projections on the def chain of an operand"""
+    out = []
+    if op["k"] not in ("copy", "move") or depth <= 0:
+        return out
+    seen = seen if seen is not None else set()
+    l = op["pl"]["l"]
+    if l in seen:
+        return out
+    seen.add(l)
+    for e in op["pl"]["p"]:
+        if isinstance(e, dict) and "idx" in e:
+            out.append(e["idx"])
+    for d in body.defs().get(l, []):
+        if d[0] == "stmt":
+            rv = d[3]["rv"]
+            if rv["k"] in ("ref", "rawptr"):
+                for e in rv["pl"]["p"]:
+                    if isinstance(e, dict) and "idx" in e:
+                        out.append(e["idx"])
+                out += _index_locals(body, {"k": "copy", "pl": {"l": rv["pl"]["l"], "p": []}}, depth - 1, seen)
+            elif rv["k"] in ("use", "cast") and rv["ops"][0]["k"] in ("copy", "move"):
+                out += _index_locals(body, rv["ops"][0], depth - 1, seen)
+        elif d[0] == "call":
+            t = d[3]
+            nm = strip_generics(t.get("resolved") or t.get("callee"))
+            from ..dataflow import TRANSPARENT as _T
+            if nm in _T and t["args"]:
+                out += _index_locals(body, t["args"][0], depth - 1, seen)
+    return out
+
+
+def pair9_levels(P, R, L, rule="PAIR-9"):
+    fn = "compaction::manifest::CompactionManifest::finalize_compaction_inputs"
+    b = P.body(fn)
+    if b is None:
+        return
+    INDEXERS = {"<std::vec::Vec<T, A> as std::ops::Index<I>>::index", "<std::vec::Vec<T, A> as std::ops::IndexMut<I>>::index_mut",
+                "core::slice::index::index", "std::array::index", "<[T; N] as std::ops::Index<I>>::index", "core::array::<impl std::ops::Index<I> for [T; N]>::index"}
+    for a in normal_sites(b, "compaction::manifest::CompactionManifest::add_boundary_inputs"):
+        # which set is expanded?
+        sig = _vec_signature(b, a.args[1])
+        want = None
+        for s_ in sig:
+            if s_[0] == "field" and s_[2] == ("1",):
+                want = 1
+            elif s_[0] == "field" and s_[2] == ("0",):
+                want = 0
+        if want is None:
+            want = 0   # a local candidate set for the compaction level (expanded0)
+        # which level's files are searched? (`files[level]` is a place index projection, or an Index call)
+        lv = None
+        from ..dataflow import TRANSPARENT
+        for o in origins(b, a.args[0], transparent=TRANSPARENT - INDEXERS):
+            if o.kind == "call" and (o.name in INDEXERS or "index" in (o.name or "").lower()) and o.site is not None and len(o.site.args) > 1:
+                lv = level_expr(b, o.site.args[1])
+        if lv is None:
+            for il in _index_locals(b, a.args[0]):
+                lv = level_expr(b, {"k": "copy", "pl": {"l": il, "p": []}})
+        ok = lv == ("level", want)
+        R.check(rule, fn + "|boundary-search-in-own-level", ok, a.where(),
+                "boundary files for a set are searched among the files of that set's own level (level for the compaction set, level+1 for the parent set)",
+                "set of level+%s searched in %s" % (want, lv))
